@@ -53,7 +53,7 @@ ValsetEvents(s) ==
                   \cup {Upd("opchild", [s.params EXCEPT !.maxVals = n]) : n \in {1, 2} \ {s.params.maxVals}}
                   \cup {Upd("opchild", [s.params EXCEPT !.histEntries = n]) : n \in (IF Thorough THEN {0, 1, 2} ELSE {0, 2}) \ {s.params.histEntries}}
              ELSE {})
-       \cup (IF s.phase = "out" /\ s.height >= 1 THEN {[type |-> "ExportImport"]} ELSE {})
+       \cup (IF s.height >= 1 /\ (s.phase = "out" \/ DOMAIN s.lastPow # {o \in DOMAIN s.vals : s.vals[o].power > 0}) THEN {[type |-> "ExportImport"]} ELSE {})
 
 Plans(s) ==
   {[type |-> "RegisterPlan", id |-> 1, height |-> h, op |-> o, key |-> k, execs |-> <<"e2">>] :
